@@ -110,6 +110,15 @@ def e_Lambda(self, n, st):
     return FuncV(FuncSym(self.cur.mod, fd), closure=dict(st.env))
 
 
+def e_Yield(self, n, st):
+    fr = self.frames[-1]
+    v = self.eval(n.value, st) if n.value is not None else Const(None)
+    if fr.yields is None:
+        fr.yields = []
+    fr.yields.append(v.with_taint(self.pc) if self.pc else v)
+    return Const(None)
+
+
 def e_Starred(self, n, st):
     return self.eval(n.value, st)
 
@@ -256,8 +265,13 @@ def num_add(self, a, b, node, what='add', sub=False):
                     r.log[c] = TOP
     else:
         r = Num()
+        size_arith = a.ex is not None and b.ex is not None
         for c in COMPS:
             x, y = a.deg[c], b.deg[c]
+            if c == 'nfft' and size_arith:
+                res_ex = (a.ex - b.ex) if sub else (a.ex + b.ex)
+                r.deg[c] = nfft_degree(res_ex)
+                continue
             e = deq(x, y)
             if e is None:
                 r.deg[c] = TOP
@@ -327,6 +341,10 @@ def num_mul(self, a, b, node, div=False, va=None, vb=None):
         r.ex = None
         return r
     r = Num(shape=shape, cplx=cplx, taint=taint, rv=rv)
+    for x, y in ((a, b), (b, a)):
+        if x.ex is not None and pure_nfft_nonhomogeneous(x.ex) and (y.is_array or any(
+                dzero(y.deg[c]) is False for c in ('s', 'hz', 'win', 'sy'))):
+            self.conflict('mul', 'nfft', 'value scaled by %s, a function of NFFT that is not proportional to NFFT' % x.ex, node)
     for c in COMPS:
         r.deg[c] = dadd(a.deg[c], dneg(b.deg[c]) if div else b.deg[c])
     r.nonneg = a.nonneg and b.nonneg
@@ -336,6 +354,8 @@ def num_mul(self, a, b, node, div=False, va=None, vb=None):
                 r.ex = a.ex.scale(1 / b.ex.c)
         else:
             r.ex = a.ex.mul(b.ex)
+        if r.ex is not None:
+            r.deg['nfft'] = nfft_degree(r.ex)
     if r.ex is None and shape == ():
         sa, sb = sym_of(a), sym_of(b)
         if sa is not None and sb is not None:
@@ -422,17 +442,11 @@ def binop(self, op, va, vb, node):
         nf = F(0)
         if isinstance(op, ast.Add):
             res = (a + b) if (a is not None and b is not None) else None
-            nf = ia.nfft if deq(ia.nfft, ib.nfft) else (ia.nfft if dzero(ib.nfft) else (ib.nfft if dzero(ia.nfft) else TOP))
-            if dzero(ia.nfft) is not True or dzero(ib.nfft) is not True:
-                nf = TOP if not deq(ia.nfft, ib.nfft) else ia.nfft
         elif isinstance(op, ast.Sub):
             res = (a - b) if (a is not None and b is not None) else None
-            nf = ia.nfft if deq(ia.nfft, ib.nfft) else TOP
         elif isinstance(op, ast.Mult):
             res = a.mul(b) if (a is not None and b is not None) else None
-            nf = dadd(ia.nfft, ib.nfft)
         elif isinstance(op, ast.FloorDiv):
-            nf = dadd(ia.nfft, dneg(ib.nfft))
             if a is not None and b is not None and b.is_const() and b.c != 0:
                 res = a.scale(1 / b.c).floor()
         elif isinstance(op, ast.Mod):
@@ -441,11 +455,6 @@ def binop(self, op, va, vb, node):
                 fl = q.floor()
                 if fl is not None:
                     res = a - fl.scale(b.c)
-            nf = F(0)
-        if nf is TOP:
-            nf = F(0)      # sizes mixed with NFFT (e.g. NFFT-K) are indices, not NFFT-as-a-number
-        if isinstance(op, (ast.Add, ast.Sub)) and (dzero(ia.nfft) is not True or dzero(ib.nfft) is not True):
-            nf = F(0)
         if res is not None and res.is_const() and res.c.denominator == 1:
             return Const(int(res.c), t)
         sx = None
